@@ -426,8 +426,15 @@ def _selftest(rep: Report, traces: list[dict[str, Any]], cases: list[dict[str, A
     # mutants of the harness's own fakes: TLC must notice that the fake left its model (M0)
     sc = next(c for c in cases if c["kind"] == "svc" and c["ecu"]["type"] == "model" and c["origin"] == "svc-packed")
     muts.append(("fake ECU answers SNS instead of a length error", run_case(sc, mutant="fake-swaps-len-and-sns"), "M0/"))
+    def has_negative_in_range(c: dict[str, Any]) -> bool:
+        d = c["den"]
+        return any(i not in c["ecu"]["pos"].get(str(s), {}).get("0", []) and [s, i] not in d["skip"]
+                   for s in (d["sessions"] or [1]) if s in c["ecu"]["sessions"] and s not in d["skip_all"]
+                   and str(s) not in c["ecu"].get("absent", {})
+                   for i in range(d["start"], d["end"] + 1))
+
     ic = next(c for c in cases if c["kind"] == "ident" and c["ecu"]["type"] == "identmodel"
-              and c["den"]["end"] - c["den"]["start"] >= 3 and c["den"]["service"] == 0x22)
+              and c["den"]["service"] == 0x22 and has_negative_in_range(c))
     muts.append(("fake ECU answers positively outside its model",
                  run_case(ic, mutant="fake-answers-positive-outside-model"), "M0/"))
     for n, (_, t, _) in enumerate(muts):
